@@ -1,5 +1,15 @@
 import FlowRecord.Drive.Util
+import FlowRecord.Drive.C13
 import FlowRecord.Drive.C11
+import FlowRecord.Drive.Selector
+import FlowRecord.Drive.C06
+import FlowRecord.Drive.C15
+import FlowRecord.Drive.Wire
+import FlowRecord.Drive.C10
+import FlowRecord.Drive.C16
+import FlowRecord.Drive.C20
+import FlowRecord.Drive.C18
+import FlowRecord.Drive.C19
 /-!
 Line protocol of the model driver: one JSON object per input line (`{"op": ..., ...}`), one JSON object per
 output line. Handlers live in `FlowRecord/Drive/*.lean`; register each one in `handlers` below.
@@ -10,7 +20,17 @@ namespace FlowRecord.Driver
 open FlowRecord.Drive
 
 def handlers : List Handler := [
-  handleC11
+  handleC13,
+  handleC18,
+  handleC11,
+  handleSelector,
+  handleC06,
+  handleC15,
+  handleWire,
+  handleC10,
+  handleC16,
+  handleC20,
+  handleC19
 ]
 
 def handle (j : Json) : Json :=
